@@ -236,7 +236,7 @@ func runC09(c *core.Ctx) {
 	runR96(c)
 	c.Rule("R9.9", "the in-memory backend computes expiry as memcached does: now + TTL only for TTLs of at most 30 days, above that the TTL is an absolute time", 1)
 	runR99(c, "R9.9")
-	c.Share(map[string]string{"R4.15": "R9.10"}, runC04) // a touch / gat / set that skips a chunk leaves that entry with its old expiry
+	c.Share(map[string]string{"R4.15": "R9.10", "R4.11": "R9.11"}, runC04) // a touch / gat / set that skips a chunk leaves that entry with its old expiry
 	// ---- R9.8 the TTL reaches the metadata entry before success is reported
 	runR98(c)
 	// ---- R9.4 chunked metadata expiry
